@@ -395,6 +395,8 @@ class Interp(_Base):
         if unknown_kw and not a.kwarg:
             return [(st, ("raise", self.raised("arity", "TypeError", node,
                                                "unexpected keyword " + unknown_kw[0])))]
+        if a.kwarg:
+            frame[a.kwarg.arg] = DictV([(StrV({k}), kwargs[k]) for k in unknown_kw])
         if fv.frame_depth is not None:
             live = fv.frame_depth < len(st.frames) and \
                 st.frames[fv.frame_depth].get("__fid__") == getattr(fv, "def_fid", None)
@@ -857,12 +859,17 @@ class Interp(_Base):
                 # store that fills it is reported as an effect, reads yield the default
                 return R(args[1] if len(args) > 1 else NONE)
             if meth in ("items", "keys", "values") and isinstance(b, PyV) and isinstance(b.value, dict):
+                def lv(k, v):
+                    # a module-level instance kept in the table: the one shared object
+                    if isinstance(v, e1.Opaque) and v.kind == "instance" and isinstance(v.info[0], e1.ClassRef):
+                        return self._global_object(st, self.cur_mod[-1], "{}[{!r}]".format(b.name, k), v)
+                    return self.lift(v)
                 if meth == "items":
-                    return R(TupleV([TupleV([self.lift(k), self.lift(v)]) for k, v in b.value.items()],
+                    return R(TupleV([TupleV([self.lift(k), lv(k, v)]) for k, v in b.value.items()],
                                     is_list=True))
                 if meth == "keys":
                     return R(TupleV([self.lift(k) for k in b.value], is_list=True))
-                return R(TupleV([self.lift(v) for v in b.value.values()], is_list=True))
+                return R(TupleV([lv(k, v) for k, v in b.value.items()], is_list=True))
             if meth == "get" and isinstance(b, DictV) and args:
                 default = args[1] if len(args) > 1 else NONE
                 out = []
